@@ -18,4 +18,26 @@ PROPS = {
                      "image-level reopen runs on the simulated disk, at points where the last I/O was a completed commit"],
         rule="codec-meta: random headers incl. txid wrap-around, all 672 single-bit flips and 83 prefix tears of every 16th header, random damage; corrupt: random committed histories, header pages damaged in the final image and reopened; distinct = images opened",
     ),
+    "C09": dict(
+        lean=["TxVerif.Props.C09", "TxVerif.Tie.Skeleton"],
+        runs=[
+            dict(cmd="lockobj", n={Q: 300, T: 5000}, driver="lock", workers=1),
+            dict(cmd="sched", n={Q: 320, T: 8000}, timeout={Q: 600, T: 3000}),
+            dict(cmd="resize", n={Q: 96, T: 2000}, props=["C09"]),
+        ],
+        hypotheses=["WellNested: a goroutine does not call Commit/Close-file while it holds an open read transaction itself (documented self-deadlock)"],
+        partial=["data-race freedom and scheduler fairness are properties of the Go runtime and not expressible in the model; the thorough tier runs the schedules under the race detector as validation only",
+                 "'returns promptly' is modelled as 'is enabled'; wall-clock bounds are checked with watchdogs on the implementation only"],
+        assumptions=["steps between two lock operations are atomic with respect to other goroutines (Go memory model, sync.Mutex/Cond as specified)",
+                     "File.Close is not raced with a Begin that has not returned yet (out of contract: Close zeroes the File)"],
+        rule="lockobj: random sequences of the 8 primitive operations on the real lock object incl. operations observed to block; sched: random controlled schedules of 1-2 writers, 0-6 readers and an optional closer on a real File; distinct = schedules with more than 10 steps",
+    ),
+    "C18": dict(
+        lean=["TxVerif.Props.C18", "TxVerif.Tie.Skeleton"],
+        runs=[dict(cmd="pathlock", n={Q: 60, T: 1000}, driver="path", workers=4)],
+        partial=["the OS's flock semantics (exclusive per path, released by Unlock) are assumed; injected I/O failures during initialisation cannot be produced on real files, failing initialisation is produced with damaged headers"],
+        assumptions=["flock on <path>.lock is exclusive per path and released by Unlock",
+                     "runs on real files in a scratch directory under the system temp dir, removed afterwards"],
+        rule="sequences of open / open with invalid options / open of a file with both headers damaged / open with max-size update / waiting open / close on one real path; distinct = sequences",
+    ),
 }
